@@ -2,11 +2,16 @@
 """print a markdown table of /verif/seeded/*/result.json"""
 import json, glob, os
 rows = []
+benign = []
 for d in sorted(glob.glob(os.path.join(os.path.dirname(os.path.dirname(os.path.abspath(__file__))), "seeded", "*"))):
     try:
         m = json.load(open(os.path.join(d, "meta.json")))
         r = json.load(open(os.path.join(d, "result.json")))
     except Exception:
+        continue
+    if m.get("benign"):
+        benign.append((os.path.basename(d), m.get("summary", "")[:150].replace("|", "/"), "yes" if r.get("valid_seed") else "NO",
+                       "FALSE ALARM" if r.get("false_alarm") else "quiet", (r.get("violation_line") or "-")))
         continue
     rep = r.get("replay") or {}
     how = "-"
@@ -27,3 +32,11 @@ print("|---|---|---|---|---|")
 for row in rows:
     print("| %s | %s | %s | %s | %s |" % row)
 print("\n%d seeds, %d caught" % (len(rows), sum(1 for r in rows if r[3] == "caught")))
+
+if benign:
+    print("\nBehaviour-preserving changes (the check must stay quiet):\n")
+    print("| change | what | suite unchanged | verdict | line |")
+    print("|---|---|---|---|---|")
+    for row in benign:
+        print("| %s | %s | %s | %s | %s |" % row)
+    print("\n%d benign changes, %d false alarms" % (len(benign), sum(1 for r in benign if r[3] != "quiet")))
